@@ -98,6 +98,32 @@ def cases(rng, tier):
         c = hist_case("generated", f"rand{i}", [(l, n)], ps, None, snaps=["p0", rng.choice(["p0,l", "p0,j,l", "p0,l,j"])])
         c.spec.update(spec)
         out.append(c)
+    # 3b. malformed stream: truncated / byte-flipped / field-overwritten scripts (model vs implementation and the history property)
+    nmut = dict(quick=400, thorough=8000, search=3000)[tier]
+    base = [(l, n) for _s, l, n, _a, _b in fx] + [(l, n) for _lab, l, n in games]
+    for i in range(nmut):
+        if rng.random() < 0.5:
+            l, n = base[rng.randrange(len(base))]
+        else:
+            l, n, _sp = L.rand_script(rng, hist=hist)
+        l = bytearray(l); n = bytearray(n)
+        r = rng.random()
+        if r < 0.25 and len(l) > 4:
+            l = l[:rng.randrange(0, len(l))]
+            if len(l) >= 16 and rng.random() < 0.7:          # keep the size fields consistent so that the header check passes
+                l[8:12] = len(l).to_bytes(4, "big"); l[12:16] = len(l).to_bytes(4, "big")
+        elif r < 0.55 and len(l) > 92:
+            for _ in range(rng.choice([1, 1, 2, 4])):
+                l[rng.randrange(16, len(l))] = rng.randrange(256)
+        elif r < 0.8 and len(l) > 92:
+            off = rng.choice([48, 64, 66, 70, 72, 76, 78, 82, 90])    # header counts / offsets
+            l[off:off + 2] = rng.choice([0, 1, -1, 0x7FFF, -0x8000, len(l), len(l) - 1, rng.randrange(-300, 300)]).to_bytes(2, "big", signed=True)
+        elif len(n) > 20:
+            if rng.random() < 0.5:
+                n = n[:rng.randrange(0, len(n))]
+            else:
+                n[rng.randrange(16, len(n))] = rng.randrange(256)
+        out.append(hist_case("mutated", f"mut{i}", [(bytes(l), bytes(n))], rng.sample(PROGS, 3), None, snaps=["p0"]))
     # 4. ordered pairs of scripts in one process
     pool = [(s, l, n, (el, ej)) for s, l, n, el, ej in fx] + [(lab, l, n, None) for lab, l, n in games]
     pairs = [(a, b) for a in range(len(pool)) for b in range(len(pool))]
